@@ -1,18 +1,373 @@
-//! C05 — placeholder, replaced below.
+//! C05 — no input data and no parsable expression can make jawk panic or hang.
+//! The stream half: corrupted / truncated / hostile byte streams arriving through the stdin
+//! seam. The expression half: as far as the generated corpus reaches (stated in evidence).
+
 use super::{Budget, Property, ShrinkCaps};
 use crate::case::*;
 use crate::common::*;
+use crate::funcs;
+use crate::gen::*;
 use crate::rng::Rng;
+use crate::run::*;
+use crate::world::*;
 
 pub struct C05;
 
+const ALPHABET: &[u8] = b"{}[]\",:-+.eE01 9\\ntfu\n/ax";
+
+const ARG_POOL: &[&str] = &[
+    ".", ".s", ".n", ".arr", ".obj", ".g", ".h", ".id", ".missing", "0", "1", "2", "3", "-1", "1.5", "1e30",
+    "-1e30", "100", "\"\"", "\"é\"", "\"aé😀b\"", "\"abc\"", "\"a\"", "\"%Q\"", "\"%Y-%m-%d\"", "\"1.5\"",
+    "\"-0\"", "\"1e3\"", "\"[\"", "\"(\"", "null", "true", "false", "[]", "{}", "[1, \"é\", null]",
+    "{\"a\": 1}", "[1, 2, 3]", "[\"é\", \"😀\"]", "[[1], [2]]", "\"日本語テキスト\"", "18446744073709551615",
+    "-9223372036854775808", "0.1", "\"2024-01-01T00:00:00Z\"", "\"Z\"", "\"+25:00\"",
+];
+
+const SMALL_ARGS: &[&str] = &["0", "1", "2", "3", "10", "100", "-1", "1.5", "null", "\"a\"", "[1, 2]", ".arr"];
+
+/// functions whose cost is driven by a numeric argument: literals stay small (resource
+/// exhaustion is out of the property's scope)
+fn amplifier(name: &str) -> bool {
+    matches!(name, "range" | "cross" | "zip" | "push" | "push_front" | "join" | "concat")
+}
+
+fn mutate(rng: &mut Rng, data: &mut Vec<u8>, other: &[u8]) -> &'static str {
+    if data.is_empty() {
+        data.push(*rng.pick(ALPHABET));
+        return "insert";
+    }
+    match rng.below(8) {
+        0 => {
+            let i = rng.below(data.len());
+            data[i] ^= 1 << rng.below(8);
+            "bitflip"
+        }
+        1 => {
+            let i = rng.below(data.len() + 1);
+            data.insert(i, *rng.pick(ALPHABET));
+            "insert"
+        }
+        2 => {
+            let i = rng.below(data.len());
+            data.remove(i);
+            "delete"
+        }
+        3 => {
+            let i = rng.below(data.len());
+            let n = rng.range(1, 8).min(data.len() - i);
+            let chunk: Vec<u8> = data[i..i + n].to_vec();
+            let at = rng.below(data.len() + 1);
+            for (k, b) in chunk.iter().enumerate() {
+                data.insert(at + k, *b);
+            }
+            "duplicate"
+        }
+        4 => {
+            // splice with another stream
+            let i = rng.below(data.len() + 1);
+            let j = rng.below(other.len() + 1);
+            data.truncate(i);
+            data.extend_from_slice(&other[j..]);
+            "splice"
+        }
+        5 => {
+            // truncation = producer crash
+            let i = rng.below(data.len() + 1);
+            data.truncate(i);
+            "truncate"
+        }
+        6 => {
+            let i = rng.below(data.len() + 1);
+            let bad: &[&[u8]] = &[b"\xff", b"\xc3", b"\xe2\x82", b"\xf0\x9f\x98", b"\xed\xa0\x80", b"\xc0\xaf", b"\x80"];
+            let b = *rng.pick(bad);
+            for (k, x) in b.iter().enumerate() {
+                data.insert(i + k, *x);
+            }
+            "invalid-utf8"
+        }
+        _ => {
+            let i = rng.below(data.len());
+            data[i] = rng.below(256) as u8;
+            "random-byte"
+        }
+    }
+}
+
+fn gen_illtyped_expr(rng: &mut Rng, depth: usize) -> String {
+    let fs = funcs::funcs();
+    let usable: Vec<&funcs::Func> = fs.iter().filter(|f| !funcs::excluded_name(f.name)).collect();
+    if usable.is_empty() {
+        return ".".into();
+    }
+    let f = *rng.pick(&usable);
+    let mut names = vec![f.name];
+    names.extend_from_slice(f.aliases);
+    let name = *rng.pick(&names);
+    let max = if f.max == usize::MAX { f.min + 2 } else { f.max };
+    let n = rng.range(f.min, max.max(f.min));
+    let mut args = Vec::new();
+    for _ in 0..n {
+        if amplifier(name) || amplifier(f.name) {
+            args.push((*rng.pick(SMALL_ARGS)).to_string());
+        } else if depth > 0 && rng.chance(1, 5) {
+            args.push(gen_illtyped_expr(rng, depth - 1));
+        } else if depth > 0 && rng.chance(1, 8) {
+            let c = funcs::corpus();
+            if c.is_empty() {
+                args.push(".".into());
+            } else {
+                args.push(rng.pick(c).expr.clone());
+            }
+        } else {
+            args.push((*rng.pick(ARG_POOL)).to_string());
+        }
+    }
+    if rng.chance(1, 10) && !args.is_empty() && args[0] == "." {
+        // leading-dot sugar
+        format!("(.{} {})", name, args[1..].join(" "))
+    } else if rng.chance(1, 6) {
+        format!("({} {})", name, args.join(", "))
+    } else {
+        format!("({} {})", name, args.join(" "))
+    }
+}
+
 impl Property for C05 {
-    fn id(&self) -> &'static str { "C05" }
-    fn level(&self) -> &'static str { "exploration" }
-    fn rule(&self) -> &'static str { "" }
-    fn assumptions(&self) -> Vec<String> { vec![] }
-    fn shrink_caps(&self) -> ShrinkCaps { ShrinkCaps { drop_pieces: true, simplify_records: false, shrink_raw: true, drop_opts: true } }
-    fn budget(&self, _tier: Tier) -> Budget { Budget { seconds: 5, max_cases: 10 } }
-    fn generate(&self, _rng: &mut Rng, _tier: Tier) -> Case { Case::new("C05", "todo") }
-    fn check(&self, _case: &Case, _ctx: &mut Ctx) -> Option<Violation> { None }
+    fn id(&self) -> &'static str {
+        "C05"
+    }
+    fn level(&self) -> &'static str {
+        "exploration"
+    }
+    fn rule(&self) -> &'static str {
+        "Stream half (what simulation decides): a valid generated stream is corrupted by 1..6 operators drawn from {bit flip, byte insert/delete/duplicate-range, splice with a second stream, truncation = producer crash at an arbitrary byte, invalid UTF-8 sequences, random byte}, or is a random string over 24 JSON-significant bytes, or a nest of up to 64 brackets, and is delivered through the SimSource stub under a seeded chunking/EINTR plan to a pipeline from the swarm grammar under any --on-error policy. Expression half (reach limited to the corpus): every function name and alias scraped from the working tree (exec, trigger, now, env removed) called with arity-correct arguments from a pool of ill-typed, empty, non-ASCII and boundary values, nested up to depth 2, used as --select/--filter/--sort-by/--group-by/--split-by over schema records; documented examples; expression texts with multi-byte characters around byte 32. Oracle: no panic, no simulator abort (event budget; read calls <= 2*len+64), result is Ok or Err. evaluations = jawk executions; non-trivial = the stream was actually corrupted (and the corruption consumed) or the expression was evaluated on at least one record; distinct = distinct abstract traces."
+    }
+    fn assumptions(&self) -> Vec<String> {
+        vec![
+            "no exhaustive enumeration of short strings is attempted (that would be bounded model checking); the alphabet family samples that region".into(),
+            "resource exhaustion is out of scope: nesting <= 64, range/cross-like amplifiers get literals <= 100, streams <= 4 KiB".into(),
+            "a loop that touches no seam is only caught by the 120 s wall-clock backstop".into(),
+            "an abort (stack overflow, allocation failure) would kill the harness process and show up as a harness error, not as a replayable violation".into(),
+        ]
+    }
+    fn shrink_caps(&self) -> ShrinkCaps {
+        ShrinkCaps {
+            drop_pieces: true,
+            simplify_records: true,
+            shrink_raw: true,
+            drop_opts: true,
+        }
+    }
+    fn budget(&self, tier: Tier) -> Budget {
+        match tier {
+            Tier::Quick => Budget {
+                seconds: 25,
+                max_cases: 2_000_000,
+            },
+            Tier::Thorough => Budget {
+                seconds: 600,
+                max_cases: 20_000_000,
+            },
+        }
+    }
+
+    fn generate(&self, rng: &mut Rng, tier: Tier) -> Case {
+        let family = match rng.below(20) {
+            0..=6 => "mutated",
+            7..=8 => "alphabet",
+            9 => "nesting",
+            10..=16 => "ill-typed",
+            17 => "documented",
+            _ => "expr-text",
+        };
+        let mut case = Case::new("C05", family);
+        let max_records = if tier == Tier::Thorough { 30 } else { 8 };
+        match family {
+            "mutated" => {
+                let w = StreamWish {
+                    min_records: 1,
+                    max_records,
+                    noise_eighths: if rng.chance(1, 4) { 2 } else { 0 },
+                    allow_touch: true,
+                    spell_level: 2,
+                    allow_big: true,
+                    schema_only: false,
+                };
+                let mut data = Case {
+                    pieces: gen_stream(rng, &w),
+                    ..Case::new("x", "x")
+                }
+                .stream();
+                let other = Case {
+                    pieces: gen_stream(rng, &w),
+                    ..Case::new("x", "x")
+                }
+                .stream();
+                let n = rng.range(1, 6);
+                let mut ops = Vec::new();
+                for _ in 0..n {
+                    ops.push(mutate(rng, &mut data, &other));
+                }
+                data.truncate(4096);
+                case.strs.insert("mutations".into(), ops.join(","));
+                case.pieces = vec![Piece::raw(data)];
+                let mut wish = PipeWish::any();
+                wish.allow_corpus = true;
+                case.opts = gen_pipe(rng, &wish).opts;
+                case.opts.push(policy_opt(*rng.pick(&[
+                    Policy::Ignore,
+                    Policy::Panic,
+                    Policy::Stderr,
+                    Policy::Stdout,
+                ])));
+            }
+            "alphabet" => {
+                let n = rng.range(0, 14);
+                let data: Vec<u8> = (0..n).map(|_| *rng.pick(ALPHABET)).collect();
+                case.pieces = vec![Piece::raw(data)];
+                if rng.chance(1, 2) {
+                    let mut wish = PipeWish::any();
+                    wish.allow_corpus = false;
+                    case.opts = gen_pipe(rng, &wish).opts;
+                }
+                case.opts.push(policy_opt(*rng.pick(&[
+                    Policy::Ignore,
+                    Policy::Panic,
+                    Policy::Stderr,
+                    Policy::Stdout,
+                ])));
+            }
+            "nesting" => {
+                let mut data = spell(&gen_nested(rng), rng, 1);
+                if rng.chance(1, 2) {
+                    let other = data.clone();
+                    mutate(rng, &mut data, &other);
+                }
+                if rng.chance(1, 3) {
+                    // unbalanced openers only
+                    let d = rng.range(1, 64);
+                    data = (0..d).map(|_| *rng.pick(b"[{")).collect();
+                }
+                case.pieces = vec![Piece::raw(data)];
+                if rng.chance(1, 2) {
+                    case.opts.push(vec!["--select".into(), "(stringify .)=x".into()]);
+                }
+            }
+            "ill-typed" | "documented" => {
+                let w = StreamWish {
+                    min_records: 1,
+                    max_records: 5,
+                    noise_eighths: 0,
+                    allow_touch: false,
+                    spell_level: 0,
+                    allow_big: true,
+                    schema_only: false,
+                };
+                case.pieces = gen_stream(rng, &w);
+                let (expr, input) = if family == "documented" && !funcs::corpus().is_empty() {
+                    let c = rng.pick(funcs::corpus());
+                    (c.expr.clone(), c.input.clone())
+                } else {
+                    (gen_illtyped_expr(rng, 2), None)
+                };
+                if let Some(i) = input {
+                    case.pieces.insert(0, Piece::gap(vec![b'\n']));
+                    case.pieces.insert(0, Piece::raw(i.into_bytes()));
+                }
+                let pos = rng.below(12);
+                match pos {
+                    0 => case.opts.push(vec![format!("--filter={expr}")]),
+                    1 => case.opts.push(vec![format!("--sort-by={expr}")]),
+                    2 => case.opts.push(vec![format!("--group-by={expr}")]),
+                    3 => case.opts.push(vec![format!("--split-by={expr}")]),
+                    4 => {
+                        case.opts.push(vec!["--set".into(), format!("@m={expr}")]);
+                        case.opts.push(vec!["--select".into(), "@m=x".into()]);
+                    }
+                    _ => case.opts.push(vec!["--select".into(), format!("{expr}=x")]),
+                }
+                if rng.chance(1, 4) {
+                    case.opts.push(vec![format!("-o={}", rng.pick(&["text", "json"]))]);
+                }
+            }
+            _ => {
+                // expression texts with multi-byte characters at every offset around byte 32
+                let pad = rng.range(20, 40);
+                let ch = *rng.pick(&["é", "😀", "日", "ß"]);
+                let kind = rng.below(4);
+                let text = match kind {
+                    0 => format!("\"{}{}{}\"", "a".repeat(pad), ch, "b".repeat(rng.below(4))),
+                    1 => format!(".{}{}", "k".repeat(pad), ch),
+                    2 => format!("(concat \"{}{}\" .s)", "a".repeat(pad), ch),
+                    _ => format!("(parse \"\\\"{}{}\\\"\")", "a".repeat(pad), ch),
+                };
+                let w = StreamWish::clean(3);
+                case.pieces = gen_stream(rng, &w);
+                case.pieces.push(Piece::rec(
+                    format!("{{\"s\":\"{}{}\"}}", "x".repeat(pad), ch).into_bytes(),
+                    99,
+                ));
+                match rng.below(5) {
+                    0 => case.opts.push(vec![format!("--filter={text}")]),
+                    1 => case.opts.push(vec![format!("--sort-by={text}")]),
+                    2 => case.opts.push(vec!["--set".into(), format!("v={text}")]),
+                    3 => case.opts.push(vec!["--select".into(), "(parse .s)=x".into()]),
+                    _ => case.opts.push(vec!["--select".into(), format!("{text}=x")]),
+                }
+            }
+        }
+        let len = case.stream().len();
+        case.delivery = gen_delivery(rng, len);
+        case
+    }
+
+    fn check(&self, case: &Case, ctx: &mut Ctx) -> Option<Violation> {
+        let input = case.stream();
+        let mut spec = case_spec(case, &input);
+        spec.max_events = 400_000;
+        let r = ctx.exec(spec);
+        let reads = r
+            .obs
+            .events
+            .iter()
+            .filter(|e| e.chan == Chan::Read && !matches!(e.res, Res::Intr))
+            .count();
+        match case.family.as_str() {
+            "mutated" | "alphabet" | "nesting" => {
+                if r.obs.consumed > 0 || input.is_empty() {
+                    ctx.stats.nontrivial = true;
+                }
+                if let Some(m) = case.strs.get("mutations") {
+                    for op in m.split(',') {
+                        ctx.stats.fault(&format!("stream.{op}"), 1);
+                    }
+                }
+            }
+            _ => {
+                if !r.obs.stdout.is_empty() || r.outcome.is_ok() {
+                    ctx.stats.nontrivial = true;
+                }
+                if matches!(r.outcome, Outcome::Err(_)) && r.obs.opened == 0 {
+                    ctx.stats.probe("expression rejected at parse time");
+                }
+            }
+        }
+        ctx.stats.probe(&format!("outcome {}", r.outcome.class()));
+        if let Outcome::Abort(why) = &r.outcome {
+            return viol("C05.terminates", format!("jawk does not finish on a {}-byte stream: {why}", input.len()));
+        }
+        if !case.delivery.whole && case.delivery.bufcap.is_none() && reads > 2 * input.len() + 64 {
+            return viol(
+                "C05.terminates",
+                format!("{reads} read calls for a {}-byte stream", input.len()),
+            );
+        }
+        if let Outcome::Panic(m, l) = &r.outcome {
+            if !(l.contains("/verif/sim/") || l.starts_with("src/")) {
+                ctx.jawk_panic = None;
+                return viol("C05.panic", format!("jawk panicked: {m} at {l}"));
+            }
+        }
+        None
+    }
 }
